@@ -543,9 +543,27 @@ def corr_order_kinds(ctx):
 _RUNS = {}
 
 
+def _sim(rng, g, N, fs, nch, freqs):
+    """noise + a few lightly damped modes with random real shapes over nch channels"""
+    t = np.arange(N) / fs
+    y = 0.02 * g.standard_normal((N, nch))
+    for f, xi, shape in freqs:
+        w = 2 * np.pi * f
+        h = np.exp(-xi * w * t) * np.sin(w * np.sqrt(1 - xi**2) * t)
+        y += np.outer(np.convolve(g.standard_normal(N), h)[:N], shape)
+    return y
+
+
+RUN_KINDS = ["SSIcov", "pLSCF", "SSIcov_unc", "SSIcov_MS", "pLSCF_MS", "SSIdat_MS"]
+
+
 def real_runs(ctx, n):
-    """a few real identifications (cached per process): list of (kind, alg, setup)"""
+    """a few real identifications (cached per process): list of (kind, alg, setup); single-setup classes on SingleSetup, the
+    _MS classes (which inherit mpe) on MultiSetup_PreGER with 2-3 setups sharing their reference channels"""
     from pyoma2.algorithms import SSIcov, pLSCF
+    from pyoma2.algorithms.plscf import pLSCF_MS
+    from pyoma2.algorithms.ssi import SSIcov_MS, SSIdat_MS
+    from pyoma2.setup.multi import MultiSetup_PreGER
     from pyoma2.setup.single import SingleSetup
 
     key = (ctx.seed, n)
@@ -557,31 +575,48 @@ def real_runs(ctx, n):
     for k in range(n):
         fs = 50.0
         N = 2500
-        t = np.arange(N) / fs
-        nch = rng.randint(2, 4)
-        y = 0.02 * g.standard_normal((N, nch))
-        for f in sorted(rng.sample([1.5, 3.2, 5.0, 7.7, 11.0], rng.randint(1, 3))):
-            xi = rng.uniform(0.005, 0.02)
-            w = 2 * np.pi * f
-            h = np.exp(-xi * w * t) * np.sin(w * np.sqrt(1 - xi**2) * t)
-            y += np.outer(np.convolve(g.standard_normal(N), h)[:N], g.standard_normal(nch))
-        kind = ["SSIcov", "pLSCF", "SSIcov_unc"][k % 3]
+        kind = RUN_KINDS[k % len(RUN_KINDS)]
         ordmax = rng.randint(8, 14)
+        modes = [(f, rng.uniform(0.005, 0.02)) for f in sorted(rng.sample([1.5, 3.2, 5.0, 7.7, 11.0], rng.randint(1, 3)))]
+        hc = {"conj": True, "xi_max": 0.2, "mpc_lim": 0.3, "mpd_lim": 0.9}
         try:
-            ss = SingleSetup(y, fs)
-            if kind == "pLSCF":
-                alg = pLSCF(name="x", ordmax=ordmax, nxseg=256, hc={"conj": True, "xi_max": 0.2, "mpc_lim": 0.3, "mpd_lim": 0.9})
-            elif kind == "SSIcov":
-                alg = SSIcov(name="x", br=ordmax // nch + 3, ordmax=ordmax, step=1)
+            if kind.endswith("_MS"):
+                nref = rng.randint(1, 2)
+                nmov = [rng.randint(1, 2) for _ in range(rng.randint(2, 3))]
+                ntot = nref + sum(nmov)
+                shapes = [g.standard_normal(ntot) for _ in modes]
+                datasets = []
+                pos = nref
+                for m in nmov:
+                    chans = list(range(nref)) + list(range(pos, pos + m))
+                    pos += m
+                    datasets.append(_sim(rng, g, N, fs, len(chans), [(f, xi, sh[chans]) for (f, xi), sh in zip(modes, shapes)]))
+                ss = MultiSetup_PreGER(fs=fs, ref_ind=[list(range(nref)) for _ in nmov], datasets=datasets)
+                nch = ntot
+                if kind == "pLSCF_MS":
+                    alg = pLSCF_MS(name="x", ordmax=ordmax, nxseg=256, hc=hc)
+                elif kind == "SSIcov_MS":
+                    alg = SSIcov_MS(name="x", br=ordmax // nref + 3, ordmax=ordmax, step=1)
+                else:
+                    alg = SSIdat_MS(name="x", br=ordmax // nref + 3, ordmax=ordmax, step=1)
             else:
-                alg = SSIcov(name="x", br=ordmax // nch + 3, ordmax=ordmax, step=1, calc_unc=True, nb=20)
+                nch = rng.randint(2, 4)
+                y = _sim(rng, g, N, fs, nch, [(f, xi, g.standard_normal(nch)) for (f, xi) in modes])
+                ss = SingleSetup(y, fs)
+                if kind == "pLSCF":
+                    alg = pLSCF(name="x", ordmax=ordmax, nxseg=256, hc=hc)
+                elif kind == "SSIcov":
+                    alg = SSIcov(name="x", br=ordmax // nch + 3, ordmax=ordmax, step=1)
+                else:
+                    alg = SSIcov(name="x", br=ordmax // nch + 3, ordmax=ordmax, step=1, calc_unc=True, nb=20)
             ss.add_algorithms(alg)
             with np.errstate(all="ignore"):
                 ss.run_by_name("x")
             out.append((kind, alg, ss))
+            ctx.count("real_run_ok_" + kind)
         except Exception as e:  # noqa: BLE001
             ctx.skipped += 1
-            ctx.count("real_run_failed_" + type(e).__name__)
+            ctx.count("real_run_failed_" + kind + "_" + type(e).__name__)
     _RUNS[key] = out
     return out
 
@@ -616,6 +651,8 @@ def class_case(ctx, kind, alg):
         order = [rng.choice(okcols) for _ in freq]
     else:
         order = "find_min"
+    if form != "find_min" and rng.random() < 0.25:  # the same columns counted from the end (Python ints)
+        order = order - cols if form == "int" else [o - cols if rng.random() < 0.6 else o for o in order]
     return {"freq": freq, "order": order, "rtol": rtol, "kind": form}
 
 
@@ -625,7 +662,7 @@ def run_class(kind, alg, ss, cc):
         with np.errstate(all="ignore"):
             ss.mpe("x", sel_freq=list(cc["freq"]), order=cc["order"], rtol=cc["rtol"])
         r = alg.result
-        if kind == "pLSCF":
+        if kind.startswith("pLSCF"):
             return norm_out((r.Fn, r.Xi, r.Phi, r.order_out), False)
         return norm_out((r.Fn, r.Xi, r.Phi, r.order_out, r.Fn_cov, r.Xi_cov, r.Phi_cov), True)
     except Exception as e:  # noqa: BLE001
@@ -635,7 +672,7 @@ def run_class(kind, alg, ss, cc):
 def case_of_result(kind, alg, cc):
     r = alg.result
     cov = None
-    if kind != "pLSCF" and r.Fn_poles_cov is not None:
+    if not kind.startswith("pLSCF") and r.Fn_poles_cov is not None:
         cov = {"fn": np.asarray(r.Fn_poles_cov, float), "xi": np.asarray(r.Xi_poles_cov, float), "phi": np.asarray(r.Phi_poles_cov, float)}
     return {"freq": cc["freq"], "Fn": np.asarray(r.Fn_poles, float), "Xi": np.asarray(r.Xi_poles, float), "Phi": np.asarray(r.Phi_poles, complex),
             "Lab": np.asarray(r.Lab), "order": cc["order"], "rtol": cc["rtol"], "deltaf": 0.05, "cov": cov, "kind": cc["kind"]}
@@ -669,7 +706,7 @@ def correspondence(ctx):
     corr_find_min_depth(ctx)
     corr_order_kinds(ctx)
     # through the classes: stored fields == function outputs == model
-    for (kind, alg, ss) in real_runs(ctx, ctx.n(6, 15)):
+    for (kind, alg, ss) in real_runs(ctx, ctx.n(6, 18)):
         for _ in range(ctx.n(15, 60)):
             cc = class_case(ctx, kind, alg)
             if cc is None:
@@ -677,17 +714,15 @@ def correspondence(ctx):
                 continue
             stored = run_class(kind, alg, ss, cc)
             case = case_of_result(kind, alg, cc)
-            which = "plscf" if kind == "pLSCF" else "ssi"
+            which = "plscf" if kind.startswith("pLSCF") else "ssi"
             direct = call_plscf(case) if which == "plscf" else call_ssi(case)
-            if kind == "pLSCF" and "exc" not in stored:
-                pass
             same_fields = stored == direct or (repr(stored) == repr(direct))
             if near_edge(case, case["rtol"] if which == "ssi" else 0.05):
                 ctx.skipped += 1
                 continue
             model = ctx.model("plscf_mpe" if which == "plscf" else "ssi_mpe", **model_inp(case, which))
             ok = same_fields and same_out(model, stored)
-            ctx.corr(f"{kind.split('_')[0]}.mpe[{cc['kind']}]", ok, {"kind": kind, "freq": cc["freq"], "order": cc["order"], "rtol": cc["rtol"]},
+            ctx.corr(f"{kind[:-4] if kind.endswith('_unc') else kind}.mpe[{cc['kind']}]", ok, {"kind": kind, "freq": cc["freq"], "order": cc["order"], "rtol": cc["rtol"]},
                      model, {"stored": repr(stored)[:1500], "direct": repr(direct)[:1500]}, (kind, cc["kind"], outcome(stored)))
             ctx.count(f"corr_class_{kind}_{cc['kind']}")
 
@@ -859,8 +894,21 @@ def oracle(ctx, scale):
         g_pl = call_plscf(case)
         judge(ctx, "pLSCF_mpe", case, g_pl, False, case["deltaf"], False)
         ctx.nontrivial.add(("oracle", case["kind"], rows, cols, len(case["freq"]), outcome(g_ssi), outcome(g_pl)))
+    # explicit orders given as negative Python ints (-1 = the highest order): the same statement, columns counted from the end
+    for _ in range(ctx.n(300, 3000) * scale):
+        case = gen_case(ctx)
+        if case["kind"] == "find_min":
+            continue
+        cols = case["Fn"].shape[1]
+        if case["kind"] == "int":
+            case["order"] = case["order"] - cols
+        else:
+            case["order"] = [o - cols if ctx.rng.random() < 0.7 else o for o in case["order"]]
+        judge(ctx, "SSI_mpe", case, call_ssi(case), True, case["rtol"], True)
+        judge(ctx, "pLSCF_mpe", case, call_plscf(case), False, case["deltaf"], False)
+        ctx.count(f"oracle_negative_order_{case['kind']}")
     if scale == 1:
-        for (kind, alg, ss) in real_runs(ctx, ctx.n(6, 15)):
+        for (kind, alg, ss) in real_runs(ctx, ctx.n(6, 18)):
             for _ in range(ctx.n(20, 80)):
                 cc = class_case(ctx, kind, alg)
                 if cc is None:
@@ -868,8 +916,9 @@ def oracle(ctx, scale):
                     continue
                 stored = run_class(kind, alg, ss, cc)
                 case = case_of_result(kind, alg, cc)
-                nm = "pLSCF.mpe" if kind == "pLSCF" else "SSIcov.mpe"
-                if kind == "pLSCF":
+                # the _MS classes inherit mpe (C11_mpe_inherited): judged under the name of the class that defines it
+                nm = "pLSCF.mpe" if kind.startswith("pLSCF") else "SSIcov.mpe"
+                if kind.startswith("pLSCF"):
                     judge(ctx, nm, case, stored, False, 0.05, False)
                 else:
                     judge(ctx, nm, case, stored, True, cc["rtol"], True)
